@@ -227,12 +227,33 @@ static void s_bcast(long c) { int kd[3]; for (int i = 0; i < 3; i++) { kd[i] = (
     vtbb::finish(); vf_outcome("bcast %d%d%d P=%d %s|%s|%s", kd[0], kd[1], kd[2], P, S(got[0]).c_str(), S(got[1]).c_str(), S(got[2]).c_str());
 }
 
+// sequencer_node whose buffer has to grow by more than one doubling: H items have already gone through in order, b items wait behind a
+// missing head, then an item arrives d positions ahead; afterwards the gaps are filled in a scattered order.  The successor must receive
+// exactly 0,1,2,... and every put of a fresh sequence number is accepted.
+static void s_seqfar(long c) { static const int HS[] = {0, 4, 8, 12}, DS[] = {5, 9, 17, 33, 70}; int H = HS[c % 4]; c /= 4; int b = 1 + (int)(c % 3); c /= 3; int d = DS[c % 5]; c /= 5; int order = (int)(c % 2);
+    vtbb::init(2); std::vector<int> got;
+    { graph g; sequencer_node<int> sq(g, [](const int& v) -> size_t { return (size_t)v; }); function_node<int, continue_msg> R(g, serial, [&](int v) { got.push_back(v); return continue_msg(); }); make_edge(sq, R);
+      auto put = [&](int v) { if (!sq.try_put(v)) vf_fail("sequencer_node refused the fresh sequence number %d (H=%d b=%d d=%d)", v, H, b, d); pump(); };
+      for (int i = 0; i < H; i++) put(i);                       // in order
+      g.wait_for_all(); if ((int)got.size() != H) vf_fail("sequencer_node: %zu of the first %d in-order items came through", got.size(), H);   // really forwarded: head and tail of the ring have advanced
+      for (int i = 1; i <= b; i++) put(H + i);                  // wait behind the missing head H
+      int far = H + b + d; put(far);                            // far ahead: the buffer grows by several doublings with items in it
+      std::vector<int> rest; for (int i = H; i <= far; i++) if (!(i > H && i <= H + b) && i != far) rest.push_back(i);
+      if (order) std::reverse(rest.begin(), rest.end()); else { std::vector<int> ev, od; for (size_t i = 0; i < rest.size(); i++) (i % 2 ? od : ev).push_back(rest[i]); rest = od; rest.insert(rest.end(), ev.begin(), ev.end()); }
+      for (int v : rest) put(v);
+      g.wait_for_all();
+      if ((int)got.size() != far + 1) vf_fail("sequencer_node: the successor received %zu items, expected %d (H=%d b=%d d=%d): %s", got.size(), far + 1, H, b, d, S(got).c_str());
+      for (int i = 0; i <= far; i++) if (got[i] != i) vf_fail("sequencer_node: position %d holds %d (H=%d b=%d d=%d)", i, got[i], H, b, d); }
+    vtbb::finish(); vf_outcome("seqfar H=%d b=%d d=%d order=%d", H, b, d, order);
+}
+
 struct Block { const char* name; long count; void (*fn)(long); };
 static std::vector<Block> blocks; static const char* only = nullptr; static const char* skip = nullptr;
 static void scenario(long c) { for (auto& b : blocks) { if (c < b.count) { b.fn(c); return; } c -= b.count; } }
 int main(int argc, char** argv) {
     for (int i = 1; i + 1 < argc; i++) if (!strcmp(argv[i], "-p")) { if (!strncmp(argv[i + 1], "only=", 5)) only = argv[i + 1] + 5; if (!strncmp(argv[i + 1], "skip=", 5)) skip = argv[i + 1] + 5; if (!strncmp(argv[i + 1], "depth=", 6)) DEPTH = atoi(argv[i + 1] + 6); if (!strncmp(argv[i + 1], "prefills=", 9)) { PREFILLS.clear(); for (const char* q = argv[i + 1] + 9; *q;) { PREFILLS.push_back((int)strtol(q, (char**)&q, 10)); if (*q == '.') q++; } } }
-    Block all[] = {{"seq", 4 * (long)PREFILLS.size() * seq_count(DEPTH), s_seq}, {"seqr", 3 * 2 * 3 * 24, s_seqr}, {"join", 3 * 3 * 3 * 2 * 3 * 64, s_join}, {"limiter", 2 * 3 * 243, s_limiter}, {"limiterint", 2 * 4 * 2 * 3 * 1024, s_limiter_int}, {"ow", 2 * 2 * 1024, s_ow}, {"route", 3 * 3 * 2, s_route}, {"bcast", 64 * 2, s_bcast}};
-    for (auto& b : all) if ((!only || !strcmp(only, b.name)) && (!skip || strcmp(skip, b.name))) blocks.push_back(b);
+    Block all[] = {{"seq", 4 * (long)PREFILLS.size() * seq_count(DEPTH), s_seq}, {"seqr", 3 * 2 * 3 * 24, s_seqr}, {"join", 3 * 3 * 3 * 2 * 3 * 64, s_join}, {"limiter", 2 * 3 * 243, s_limiter}, {"limiterint", 2 * 4 * 2 * 3 * 1024, s_limiter_int}, {"ow", 2 * 2 * 1024, s_ow}, {"route", 3 * 3 * 2, s_route}, {"bcast", 64 * 2, s_bcast}, {"seqfar", 4 * 3 * 5 * 2, s_seqfar}};
+    auto listed = [](const char* list, const char* name) { std::string l = std::string(",") + list + ",", n = std::string(",") + name + ","; return l.find(n) != std::string::npos; };   // -p skip=a,b
+    for (auto& b : all) if ((!only || !strcmp(only, b.name)) && (!skip || !listed(skip, b.name))) blocks.push_back(b);
     long n = 0; for (auto& b : blocks) n += b.count; return vf_main_cases(argc, argv, n, scenario);
 }
